@@ -71,6 +71,7 @@ def run(tier):
         for st, src in c08.styles(a).items():
             inputs.append(("lang:" + st, src))
         inputs.append(("lang:respelled-literals", respell(a)))
+        inputs.append(("lang:block-layout", langlib.render_block(o["p"])))
     files = sorted(glob.glob(vlib.REPO + "/std/**/*.glu", recursive=True) + glob.glob(vlib.REPO + "/tests/pass/*.glu") + glob.glob(vlib.REPO + "/examples/**/*.glu", recursive=True))
     if tier == "quick":
         files = files[::2]
